@@ -30,26 +30,40 @@ from vlib import harness  # noqa: E402
 
 PROP = "C12"
 
-# Known finding carved out of the search (set VERIF_C12_EXCLUDE=0 to search inside it again).
-#  unify.cyclic_result : unification reaches a binding `v := t` where t as written does not
-#     mention v but t under the bindings made so far does (the occurs check of `_unify_var`
-#     looks at `t.unsolved_vars` only), or where t is a solved const variable whose solution is v
-#     (a solved const variable on the right-hand side is not chased).  /repo returns a cyclic
-#     substitution, or recurses without bound when it meets the cycle again.  Precise class:
-#     `known_class()` below.
-EXCLUDE = set() if os.environ.get("VERIF_C12_EXCLUDE") == "0" else {"unify.cyclic_result"}
+# Known findings carved out of the search (VERIF_C12_EXCLUDE=0 searches inside them again).
+# Unification reaches a binding `v := t` where
+#  unify.cyclic_result       : t as written does not mention v but t under the bindings made so far
+#                              does (the occurs check of `_unify_var` looks at `t.unsolved_vars` only);
+#  unify.cyclic_result.const : t is a solved const variable whose solution is v (only a solved
+#                              *type* variable on the right-hand side is chased).
+# /repo then returns a cyclic substitution (buckets as named), or recurses without bound when it
+# meets the cycle again (`<bucket>.diverges`).  Precise input class: `known_class()` below.
+EXCLUDE = set() if os.environ.get("VERIF_C12_EXCLUDE") == "0" else {"unify.cyclic_result", "unify.cyclic_result.const"}
+KNOWN_CLASS_BUCKET = {"occurs_via_subst": "unify.cyclic_result", "const_alias": "unify.cyclic_result.const"}
 
-# fixed probe inputs of the excluded class (for known_findings.json "probe" / --replay)
+# fixed probe inputs of the excluded classes (for known_findings.json "probe" / --replay)
 PROBES = {
+    # unify((?b, ?a), (?a, (?b,)), {}) -> {?a: (?b,), ?b: ?a}        (not unifiable)
     "unify.cyclic_result": {"kind": "unify", "s": ["tuple", [["ev", 1], ["ev", 0]]],
                             "t": ["tuple", [["ev", 0], ["tuple", [["ev", 1]]]]], "start": []},
-    "unify.cyclic_result.const": {"kind": "unify",
-                                  "s": ["array", ["array", ["int"], ["cv", 0]], ["cv", 1]],
-                                  "t": ["array", ["array", ["int"], ["cv", 1]], ["cv", 0]], "start": []},
+    # unify(?m, ?k, {?k: ?m}) -> {?m: ?k, ?k: ?m}                    (unifiable: nothing to do)
+    "unify.cyclic_result.const": {"kind": "unify", "s": ["cv", 1], "t": ["cv", 2], "start": [[["cv", 2], ["cv", 1]]]},
+    # RecursionError on a unifiable pair (n = m = 0)
+    "unify.cyclic_result.const.diverges": {
+        "kind": "unify",
+        "s": ["tuple", [["array", ["int"], ["cv", 1]], ["array", ["int"], ["cv", 0]], ["array", ["int"], ["c", 0]]]],
+        "t": ["tuple", [["array", ["int"], ["cv", 0]], ["array", ["int"], ["cv", 1]], ["array", ["int"], ["cv", 1]]]],
+        "start": []},
+    # RecursionError on a non-unifiable pair (two independent cycles meet)
+    "unify.cyclic_result.diverges": {
+        "kind": "unify",
+        "s": ["tuple", [["ev", 1], ["ev", 0], ["ev", 3], ["ev", 2], ["ev", 0]]],
+        "t": ["tuple", [["ev", 0], ["tuple", [["ev", 1]]], ["ev", 2], ["tuple", [["ev", 3]]], ["ev", 2]]],
+        "start": []},
 }
 
 SAMPLE_CLASSES = ("ok", "fail:occurs_direct", "fail:flags", "fail:arity", "ambiguous", "fail:const")
-STEP_BUDGET = 4000  # calls of unify() per top-level call (largest legitimate count seen: < 200)
+STEP_BUDGET = 4000  # calls of unify() per top-level call (largest count observed is reported in notes.max_unify_steps)
 
 # copy/drop kinds of the variable pools (copyable, droppable)
 EV_KIND = {0: (True, True), 1: (True, True), 2: (False, False), 3: (False, False)}
@@ -600,11 +614,11 @@ def evaluate_unify(case, honour_exclude=True):
         return out
     ref = ref_unify(s, t, start)
     out["info"] = {"ref": ref["result"], "reason": ref["reason"]}
-    if honour_exclude and "unify.cyclic_result" in EXCLUDE:
-        k = known_class(s, t, start)
-        if k:
-            out["excluded"] = "unify.cyclic_result:" + k
-            return out
+    kc = known_class(s, t, start)
+    out["info"]["known_class"] = kc
+    if honour_exclude and kc and KNOWN_CLASS_BUCKET[kc] in EXCLUDE:
+        out["excluded"] = KNOWN_CLASS_BUCKET[kc]
+        return out
     rs, rt = W.to_real(s), W.to_real(t)
     rstart = {W.to_real(k): W.to_real(v) for k, v in start.items()}
     # generator/oracle soundness: the mirror is isomorphic and agrees on linearity of fn inputs
@@ -625,7 +639,9 @@ def evaluate_unify(case, honour_exclude=True):
     try:
         res = W.unify(rs, rt, rstart)
     except (RecursionError, W.StepBudget) as e:
-        out["viol"].append(("unify.no_termination",
+        # root cause by input class: divergence on an input of the known class comes from the cyclic
+        # substitution built on the way; anything else is a termination problem of its own
+        out["viol"].append(((KNOWN_CLASS_BUCKET[kc] + ".diverges") if kc else "unify.no_termination",
                             f"{text}: {type(e).__name__} after {W.steps[0]} unify steps (reference: {ref['result']} {ref['reason'] or ''})"))
         return out
     except Exception as e:  # noqa: BLE001
@@ -660,7 +676,7 @@ def evaluate_unify(case, honour_exclude=True):
     except ValueError:
         selfref = [k for k, v in theirs.items() if occurs_raw(k, v)]
         if selfref:
-            bucket = "unify.cyclic_result.self_reference"
+            bucket = "unify.selfref_result"
         elif all(k[0] == "cv" for k in theirs if _on_cycle(k, theirs)):
             bucket = "unify.cyclic_result.const"
         else:
@@ -1032,34 +1048,38 @@ def make_strategies():
         return go(term)
 
     def mutate(draw, term):
-        """one local edit: near-miss failures, arity mismatches, occurs shapes, extra variables"""
+        """one local edit, kind first: ownership flag (preferably of a linear input), arity of a
+        tuple / function, constant, occurs wrap, extra variable, random sub-term"""
         pos = [(p, u) for p, u in _positions(term)]
+        kind = draw(I[9])
         fns = [(p, u) for p, u in pos if u[0] == "fn" and u[1]]
-        if fns and draw(I[2]) == 0:
-            path, u = pick(draw, fns)
-            i = draw(I[len(u[1]) - 1]) if len(u[1]) > 1 else 0
+        if kind <= 2 and fns:
+            linfns = [(p, u) for p, u in fns if any(lin(x) for _, x in u[1])]
+            path, u = pick(draw, linfns or fns)
+            idx = [i for i, (_, x) in enumerate(u[1]) if lin(x)] or list(range(len(u[1])))
+            i = pick(draw, idx)
             f = FLAGS[(FLAGS.index(u[1][i][0]) + 1 + draw(I[1])) % 3]
             return _replace(term, path, ("fn", u[1][:i] + ((f, u[1][i][1]),) + u[1][i + 1:], u[2], u[3]))
-        path, u = pick(draw, pos)
-        if is_const(u):
-            return _replace(term, path, g_const(draw, 4))
-        k = draw(I[9])
-        if k == 0 and u[0] == "tuple":
-            new = ("tuple", u[1][:-1]) if u[1] and draw(I[1]) else ("tuple", u[1] + (g_type(draw, 0, 3),))
-        elif k == 1 and u[0] == "fn":
-            if u[1] and draw(I[1]):
+        seqs = [(p, u) for p, u in pos if u[0] in ("tuple", "fn")]
+        if kind <= 4 and seqs:
+            path, u = pick(draw, seqs)
+            if u[0] == "tuple":
+                new = ("tuple", u[1][:-1]) if u[1] and draw(I[1]) else ("tuple", u[1] + (g_type(draw, 0, 3),))
+            elif u[1] and draw(I[1]):
                 new = ("fn", u[1][:-1], u[2], u[3])
             else:
                 new = ("fn", u[1] + ((FLAGS[draw(I[2])], g_type(draw, 0, 3)),), u[2], u[3])
-        elif k <= 3 and u[0] == "fn" and u[1]:
-            i = draw(I[len(u[1]) - 1]) if len(u[1]) > 1 else 0
-            f = FLAGS[(FLAGS.index(u[1][i][0]) + 1 + draw(I[1])) % 3]
-            new = ("fn", u[1][:i] + ((f, u[1][i][1]),) + u[1][i + 1:], u[2], u[3])
-        elif k <= 5:
+            return _replace(term, path, new)
+        consts = [(p, u) for p, u in pos if is_const(u)]
+        if kind == 5 and consts:
+            path, u = pick(draw, consts)
+            return _replace(term, path, ("c", (u[1] + 1 + draw(I[1])) % 4) if u[0] == "c" else g_const(draw, 4))
+        path, u = pick(draw, [(p, u) for p, u in pos if not is_const(u)])
+        if kind <= 7:
             vs = sorted(set(v for v in tvars(term) if v[0] == "ev")) or [("ev", draw(I[3]))]
             v = pick(draw, vs)
             new = (("tuple", (v,)), ("option", v), ("fn", (("", v),), ("none",), 0), ("tuple", (("int",), v)), v)[draw(I[4])]
-        elif k <= 7:
+        elif kind == 8:
             new = ("ev", draw(I[3]))
         else:
             new = g_type(draw, 1, 3)
@@ -1117,7 +1137,7 @@ def make_strategies():
             t = generalise(g, theta_inv, draw(bits))
             label = "instance"
             m = 9 if prior else draw(I[9])
-            if m < 4:
+            if m < 5:
                 t = mutate(draw, t)
                 label = "instance+mut"
                 if m == 0:
@@ -1242,10 +1262,10 @@ def make_strategies():
             which = draw(I[1])
             lst = params if which else args
             i = draw(I[len(lst) - 1]) if len(lst) > 1 else 0
-            k = draw(I[5])
+            k = draw(I[8])
             if k == 0:
                 (lst.pop(i) if len(lst) > 1 and draw(I[1]) else lst.append(pick(draw, CLOSED)))
-            elif which and k <= 2:
+            elif which and k <= 3:
                 # reuse a variable at another position (consistency of repeated variables)
                 vs = [v for v in theta_inv.values()]
                 pos = [(p, u) for p, u in _positions(lst[i]) if vs and is_const(u) == is_const(vs[0])]
@@ -1323,9 +1343,13 @@ def worker(ctx):
             ctx.sample("ref=" + outcome, f"{case['text']} -> {theirs}; reference: {outcome}")
         for b, d in r["viol"]:
             record(b, case, d)
+        ctx.notes["max_unify_steps"] = max(ctx.notes.get("max_unify_steps", 0), info.get("steps", 0))
         return r
 
+    examples = [0]
+
     def body_unify(c):
+        examples[0] += 1
         s, t = c["s"], c["t"]
         kind, payload = c["start"]
         start = {}
@@ -1374,11 +1398,12 @@ def worker(ctx):
     if ctx.labels["call"] < n_call // 3:
         ctx.harness_error(f"call half starved: {ctx.labels['call']} of {n_call} cases evaluated")
     harness.hyp_search(ctx, unify_case, body_unify, max_examples=n_unify, chunk=500, time_frac=0.9, extra_seed=2)
-    if ctx.labels["unify"] < n_unify:
-        ctx.harness_error(f"unify half starved: {ctx.labels['unify']} evaluations for {n_unify} examples (time budget hit)")
+    if examples[0] < n_unify:
+        ctx.harness_error(f"unify half incomplete: {examples[0]} of {n_unify} examples (time budget hit, inconclusive)")
     ctx.notes["world"] = "struct SA[T, n]{x: T; y: array[int, n]}, SB[T, U]{x: T; y: U}; ?a ?b classical, ?c ?d linear-capable type variables"
-    # minimise each new unify-level bucket with the structural shrinker
-    for bucket, case in new_buckets.items():
+    # minimise each unify-level bucket with the structural shrinker (from the smallest case seen)
+    for bucket in list(new_buckets):
+        case = ctx.violations[bucket]["case"]
         if case.get("kind") == "unify" and not ctx.out_of_time(0.97):
             small = shrink_unify(case, bucket)
             r = evaluate_unify(small, honour_exclude=False)
@@ -1390,7 +1415,7 @@ def worker(ctx):
 SPEC = harness.Spec(
     PROP, worker, replay,
     rule=("unify level: Hypothesis draws a pair of mirror terms (50% two generalisations of one ground type - unifiable by "
-          "construction - of which 40% get a local mutation: arity change, flag change, occurs wrap, fresh variable, random "
+          "construction - of which 50% get a local mutation: arity change, flag change, occurs wrap, fresh variable, random "
           "sub-term; 30% variable-heavy tuples; 10% const-variable-heavy tuples of arrays/structs; 10% unrelated terms / "
           "top-level constants / quantified function types) and a start "
           "substitution ({} 50%, a drawn acyclic triangular substitution 20%, the result of /repo's unify on another drawn pair "
@@ -1408,8 +1433,8 @@ SPEC = harness.Spec(
     ],
     shards={"quick": 16, "thorough": 16},
     budget_s={"quick": 90, "thorough": 720},
-    params={"quick": {"n_unify": 5000, "n_call": 130}, "thorough": {"n_unify": 60000, "n_call": 1500}},
-    min_nontrivial=3000,
+    params={"quick": {"n_unify": 4000, "n_call": 130}, "thorough": {"n_unify": 40000, "n_call": 1500}},
+    min_nontrivial=8000,
 )
 
 if __name__ == "__main__":
